@@ -30,5 +30,5 @@ __CPROVER_ensures(IMPLIES(g_peer_closed, g_sock_closed && tcpCtx->sockfd == -1 &
 __CPROVER_ensures(IMPLIES(!g_peer_closed && !g_sock_closed && !g_tcp_env_failed, __CPROVER_return_value == KSI_OK || __CPROVER_return_value == KSI_ASYNC_CONNECTION_CLOSED))
 /* the head request keeps its partial-send position consistent */
 __CPROVER_ensures(g_q_len == 0 || (g_req.sentCount <= g_req.len))
-__CPROVER_assigns(*tcpCtx, g_in, g_out, g_delivered, g_errno, g_peer_closed, g_sock_closed, g_pending, g_pending_count, g_tcp_env_failed,
+__CPROVER_assigns(tcpCtx->inLen, tcpCtx->sockfd, tcpCtx->socketReady, tcpCtx->roundCount, tcpCtx->roundStartAt, tcpCtx->connectedAt, g_recv_calls, g_req_raw_p, g_in, g_out, g_delivered, g_errno, g_peer_closed, g_sock_closed, g_pending, g_pending_count, g_tcp_env_failed,
 		g_q_len, g_req, g_q_removed, g_req_len0, g_sent_total);
